@@ -626,6 +626,24 @@ impl World {
             .flatten()
     }
 
+    /// Raw write of a contract storage key (used only to lay out the state of an OLDER contract version before a
+    /// migration is exercised). The key layout of cw-multi-test (namespaces "wasm" / "contract_data/<addr>", each
+    /// with a 2-byte length prefix) is checked against an existing key of that contract.
+    pub fn raw_set(&mut self, contract: &str, key: &[u8], value: &[u8]) {
+        let ns = format!("contract_data/{}", contract);
+        let mut full: Vec<u8> = vec![0, 4];
+        full.extend_from_slice(b"wasm");
+        full.extend_from_slice(&(ns.len() as u16).to_be_bytes());
+        full.extend_from_slice(ns.as_bytes());
+        let known = self.dump(contract);
+        let (k0, v0) = known.first().expect("contract has storage");
+        let mut probe = full.clone();
+        probe.extend_from_slice(k0);
+        assert_eq!(self.store.0.borrow().get(&probe), Some(v0), "unexpected storage key layout");
+        full.extend_from_slice(key);
+        self.store.0.borrow_mut().insert(full, value.to_vec());
+    }
+
     pub fn dump(&self, contract: &str) -> Vec<Record> {
         self.app.dump_wasm_raw(&Addr::unchecked(contract))
     }
